@@ -60,6 +60,11 @@ pub fn payload_alts(ty: Ty, p: &DocParams) -> Vec<PayloadAlt> {
                 v.push(PayloadAlt::Raw(vec![0xff, 0xff, 0xfe]));
                 v.push(PayloadAlt::Raw(vec![0, 0, 0, 0, 0, 0x80]));
                 v.push(PayloadAlt::Raw(vec![0x80, 0, 0, 0, 0, 0, 0]));
+                // zero-padded positive values whose minimal two's-complement width is larger than their magnitude suggests
+                v.push(PayloadAlt::Raw(vec![0, 0x80, 0, 0, 0]));
+                v.push(PayloadAlt::Raw(vec![0, 0xff, 0xff, 0xff, 0xff]));
+                v.push(PayloadAlt::Raw(vec![0, 0x80, 0]));
+                v.push(PayloadAlt::Raw(vec![0, 0x80]));
             }
             Ty::F => {
                 v.push(PayloadAlt::Raw(1.5f32.to_be_bytes().to_vec()));
